@@ -491,7 +491,10 @@ pub fn wide_specs(seed: u64, wave: u64, plan: &str) -> Vec<GrammarSpec> {
             }
             2 => {
                 // hundreds of alternatives, longest first so that every one can win
-                let arms: Vec<Expr> = (0..n).rev().map(|i| Expr::lit(&format!("k{i}"))).collect();
+                // the first alternative is a longer sequence: a failure deep inside it lies further than anything the
+                // hundreds of later alternatives report
+                let mut arms: Vec<Expr> = vec![Expr::Seq(vec![Expr::lit("q"), Expr::lit("="), Expr::anon("char"), Expr::lit("!"), Expr::lit(";")])];
+                arms.extend((0..n).rev().map(|i| Expr::lit(&format!("k{i}"))));
                 rules.push(export("Start", Expr::Seq(vec![Expr::Plus(Box::new(Expr::Group(Box::new(Expr::Choice(arms))))), Expr::Eoi])));
             }
             3 => {
@@ -543,7 +546,7 @@ pub fn wide_specs(seed: u64, wave: u64, plan: &str) -> Vec<GrammarSpec> {
 pub fn make(plan: &str, seed: u64, count: usize, tier: &str, wave: u64) -> (Vec<GrammarSpec>, serde_json::Value) {
     let mut stats = GenStats { attempts: 0, rejected: BTreeMap::new() };
     let mut specs = vec![];
-    if matches!(plan, "core" | "fields" | "types") {
+    if matches!(plan, "core" | "fields" | "types" | "errors") {
         specs.extend(wide_specs(seed, wave, plan));
     }
     match plan {
@@ -568,7 +571,11 @@ pub fn make(plan: &str, seed: u64, count: usize, tier: &str, wave: u64) -> (Vec<
             // the error plan also needs field-rich grammars (multi-field optionals / closures have their own templates)
             let nf = if plan == "errors" { count / 4 } else { 0 };
             for (k, (g, _)) in profile_grammars(&prof, seed, count - nl - nf - nu, wave, &mut stats).into_iter().enumerate() {
-                specs.push(spec(format!("g{:04}", k), plan, g));
+                // schedule plan: every third grammar with a user context (hooks that can be made to panic: aborted parses)
+                let ctx = plan == "sched" && k % 3 == 2;
+                let mut s = spec(format!("g{:04}", k), plan, if ctx { to_ctx(&g) } else { g });
+                s.cfg.user_ctx = ctx;
+                specs.push(s);
             }
             if nf > 0 {
                 let pf = prof_for("fields", tier, wave).unwrap();
